@@ -153,6 +153,33 @@ CLAIMED = {
         note="Trusted: pyvc, z3 (polynomial reals), the ghost contracts of qr/svd/masks/ncon on site tensors (Q, U, V isometric, |S| = |C|, complementary masks partition the spectrum) which also pin the MPS leg convention of every call. NOT decided: tensors ARE isometries, Schmidt values/entropies equal those of the dense state, unit norm after normalize=True (floating point / LAPACK). Chain lengths 1..5 (quick) / 1..7 (thorough).",
         technique='symbolic execution of the real MPS methods on ghost tensors (modular contracts for tensor operations), state equality as real-scalar VC + word rewriting',
     ),
+    'C09': dict(
+        category='proof',
+        text=("SELF-CONSISTENCY clauses only. The real _dmrg_sweep_1site_/_dmrg_sweep_2site_/_dmrg_ run on the real MpsMpoOBC methods and the real "
+              "EnvParent bookkeeping (setup_, clear_site_, update_env_) with ghost tensors carrying value identities: at EVERY application of an "
+              "effective Hamiltonian and at every energy measurement the two environments read are present and were built from exactly the "
+              "current site tensors (so the reported energy is the expectation value in the returned state and each local problem is the true "
+              "projected one), every site/bond is optimised once per half sweep in order, sweeps end without central block and canonical towards "
+              "first, Schmidt values are collected on the interior bonds, DMRG_out reports sweep count, last energy, dE = |E_old - E|, stops "
+              "early only when converged, yields every iterator_step; invalid arguments rejected. N = 2..5 (quick) / 2..8 (thorough)."),
+        design_ref='DESIGN.md §5 C09',
+        note="Trusted: pyvc, ghost contracts of tensor operations and of the eigensolver (applies the map, returns a vector of the same shape). NOT decided (listed in evidence): variational bound, monotone decrease, eigenstate at convergence, orthogonality with projections, charge sector -- all rest on eigs/LAPACK and floating point. Env_sum/Env_project/precompute classes not covered.",
+        technique='symbolic execution of the real sweep drivers against ghost-state (provenance) contracts of environment updates; control flow is data independent, so one run per configuration covers all data',
+    ),
+    'C10': dict(
+        category='proof',
+        text=("BOOKKEEPING clauses only. tdvp_ over reals with the loop over a symbolic number of steps cut by an inductive invariant: steps >= 1, "
+              "steps*ds = t1 - t0 (the reported final time is exactly the requested snapshot also when dt does not divide the interval), ds <= dt up "
+              "to the guard, 2nd order evaluates the generator at the midpoint, the five 4th-order sub-steps sum to ds and evaluate at their "
+              "sub-interval midpoints, snapshots and argument validation. The real _tdvp_sweep_1site_/_2site_/_12site_ with _update_A/_C/_AA on the "
+              "real MPS/Env bookkeeping with ghost tensors, every mixture of 1- and 2-site updates (enlarge_bond non-deterministic): every "
+              "effective-Hamiltonian application uses fresh environments; each half sweep is a valid projector splitting (forward/backward steps "
+              "of u*dt/2 alternate, a backward step acts on the overlap of its forward neighbours, every site evolves by -u*dt/2 net); the state "
+              "ends without central block."),
+        design_ref='DESIGN.md §5 C10',
+        note="Trusted: pyvc, z3, ghost contracts (expmv applies the map and returns an evolved tensor). Floats as reals. NOT decided: norm/energy conservation, charge sector, exactness on the full manifold, convergence order (floating point). One genuine defect found and fixed (zero steps for intervals below 1e-12).",
+        technique='symbolic execution over reals with an inductive invariant for the stepping loop; ghost-state protocol contracts for the sweeps',
+    ),
     'C13': dict(
         category='proof',
         text=("The real truncation_mask is interpreted on spectra of symbolic non-negative reals spread over charge sectors, with symbolic tol, "
